@@ -72,8 +72,174 @@ func guardOverRoots(c *core.Ctx, r *core.Rule) {
 	}
 }
 
+// guardHelpers (R19.2): a helper's requirement on its byte-slice parameter
+// becomes an obligation of its callers.  A helper is analysed with the
+// smallest length any caller can pass, provided every call site passes bytes
+// whose provenance is arbitrary and completely understood.
+func guardHelpers(c *core.Ctx, r *core.Rule) {
+	p := c.P
+	roots := p.Roots()
+	g := p.CG(false)
+	type pinfo struct {
+		data *ssa.Parameter
+		min  int
+		ok   bool
+		path string
+	}
+	info := map[*ssa.Function]*pinfo{}
+	for i := range roots.Dec {
+		d := &roots.Dec[i]
+		info[d.Fn] = &pinfo{data: d.Data, min: d.MinLen, ok: true, path: core.FnKey(d.Fn)}
+	}
+	nHelpers, nSites := 0, 0
+	for round := 0; round < 3; round++ {
+		for _, fn := range core.SortedFns(roots.DecReach) {
+			if info[fn] != nil || len(fn.Blocks) == 0 || fn.Synthetic != "" {
+				continue
+			}
+			var q *ssa.Parameter
+			qi := -1
+			for i, pa := range fn.Params {
+				if core.IsByteSlice(pa.Type()) {
+					q, qi = pa, i
+					break
+				}
+			}
+			if q == nil {
+				continue
+			}
+			n := g.Nodes[fn]
+			if n == nil || len(n.In) == 0 {
+				continue
+			}
+			min := 1 << 30
+			all := true
+			path := ""
+			for _, e := range n.In {
+				ci := info[e.Caller.Func]
+				if ci == nil || !ci.ok || e.Site == nil {
+					all = false
+					break
+				}
+				cc := e.Site.Common()
+				args := cc.Args
+				if cc.IsInvoke() {
+					all = false
+					break
+				}
+				if qi >= len(args) {
+					all = false
+					break
+				}
+				have, arb := guard.ArgInfo(e.Caller.Func, &guard.RootInfo{Data: ci.data, MinLen: ci.min}, args[qi], e.Site.Block())
+				if !arb {
+					all = false
+					break
+				}
+				if have < min {
+					min = have
+					path = ci.path + " -> " + core.FnKey(fn) + " (called at " + p.InstrPos(e.Site) + " with >= " + fmt.Sprint(have) + " bytes)"
+				}
+			}
+			if !all {
+				continue
+			}
+			info[fn] = &pinfo{data: q, min: min, ok: true, path: path}
+			nHelpers++
+			sites := guard.Analyze(fn, &guard.RootInfo{Data: q, MinLen: min})
+			sort.SliceStable(sites, func(i, j int) bool { return sites[i].Ins.Pos() < sites[j].Ins.Pos() })
+			seen := map[string]int{}
+			for i := range sites {
+				s := &sites[i]
+				nSites++
+				base := siteKey(p, s, 1)
+				seen[base]++
+				key := siteKey(p, s, seen[base])
+				switch s.Class {
+				case "SAFE":
+					r.OK(key, p.InstrPos(s.Ins), fmt.Sprintf("need len>=%d, have >=%d", s.Need, s.Have))
+				case "DEF":
+					r.Violate(key, p.InstrPos(s.Ins), fmt.Sprintf("%s needs len >= %d but callers pass as few as %d bytes and no guard inside the helper establishes more (%s); call path: %s", s.What, s.Need, s.Have, s.Why, path), map[string]any{"need_len": s.Need, "have_len": s.Have, "call_path": path})
+				default:
+					r.Undecided(key, p.InstrPos(s.Ins), s.Class+": "+s.Why)
+				}
+			}
+		}
+	}
+	c.Counts["helpers_with_arbitrary_callers"] = nHelpers
+	c.Counts["helper_sites"] = nSites
+}
+
+// loopProgress (R19.3): a loop over packet bytes whose per-iteration advance is
+// taken from the packet and may be zero re-parses the same bytes forever.
+func loopProgress(c *core.Ctx, r *core.Rule) {
+	p := c.P
+	roots := p.Roots()
+	n := 0
+	for _, fn := range core.SortedFns(roots.DecReach) {
+		if len(fn.Blocks) == 0 || fn.Synthetic != "" || core.FnPkg(fn) == nil || core.FnPkg(fn).Path() != core.Mod+"/layers" {
+			continue
+		}
+		var ri *guard.RootInfo
+		if d := roots.DecByFn[fn]; d != nil {
+			ri = &guard.RootInfo{Data: d.Data, MinLen: d.MinLen}
+		}
+		seen := map[string]int{}
+		for _, a := range guard.LoopAdvances(fn, ri) {
+			n++
+			base := core.FnKey(fn) + "/loop-advance:" + a.Kind
+			seen[base]++
+			key := base
+			if seen[base] > 1 {
+				key = fmt.Sprintf("%s#%d", base, seen[base])
+			}
+			switch {
+			case a.LB >= 1:
+				r.OK(key, p.InstrPos(a.At), fmt.Sprintf("advances by at least %d per iteration", a.LB))
+			case a.Taint && a.LB <= 0 && a.LB > -1<<30 && exitsIndependent(a) == false:
+				r.Violate(key, p.InstrPos(a.At), "the loop advances by a value taken from the packet that may be 0 (no guard establishes >= 1): an input with that field zero is re-parsed forever — decoding never returns (and appends to the layer until memory is exhausted)", nil)
+			default:
+				r.Undecided(key, p.InstrPos(a.At), "advance not proven positive")
+			}
+		}
+	}
+	c.Counts["loop_advances"] = n
+}
+
+// exitsIndependent: conservative placeholder — true when the loop may leave on
+// a condition that changes although the cursor does not (iteration counters).
+func exitsIndependent(a guard.Advance) bool {
+	// a second loop-carried integer in the same header that advances by a constant
+	// (a counter compared with a limit) terminates the loop regardless of the cursor
+	hdr := a.Phi.Block()
+	for _, ins := range hdr.Instrs {
+		ph, ok := ins.(*ssa.Phi)
+		if !ok {
+			break
+		}
+		if ph == a.Phi {
+			continue
+		}
+		for i, e := range ph.Edges {
+			if !hdr.Dominates(hdr.Preds[i]) {
+				continue
+			}
+			if bo, ok := e.(*ssa.BinOp); ok {
+				if _, isK := core.ConstInt(bo.Y); isK && (bo.X == ssa.Value(ph)) {
+					return true
+				}
+			}
+		}
+	}
+	return false
+}
+
 func checkC19(c *core.Ctx) {
 	c.Explain = "GUARD (DESIGN.md 3.2) over every decode root (DecodeFromBytes of each DecodingLayer and every function converted to DecodeFunc; `data` arbitrary, minimum length 0, or 1 for decoders only ever chained through NextDecoder): each constant-offset index, slice and binary.UintNN site on bytes descending from `data` is classified safe / definite / unknown from the dominating length guards (constant and symbolic, with load value-numbering, integer lower bounds and loop phis); only *definite* sites — complete knowledge of the guards and a minimum reachable length below the requirement — are violations, each with a witness length. Decides: no fixed-offset read of packet bytes without a sufficient dominating length check. Does not decide: sites classified unknown (count in coverage.counts), variable-offset arithmetic, panics inside the standard library, loop termination beyond R19.3."
 	r1 := c.Rule("R19.1", "D", "no definite out-of-range constant-offset access to attacker-chosen bytes in a decode root")
 	guardOverRoots(c, r1)
+	r2 := c.Rule("R19.2", "D", "helpers: a requirement on a byte-slice parameter is met by every caller")
+	guardHelpers(c, r2)
+	r3 := c.Rule("R19.3", "D", "decode loops advance: a packet-chosen step has a proven lower bound >= 1")
+	loopProgress(c, r3)
 }
